@@ -682,6 +682,93 @@ pub fn run(tier: Tier, _replay: Option<Value>) -> ! {
             rep.fail(Failure { case: format!("{m} [$(( )) malformed/lexing]"), tags: vec!["malformed".into(), format!("text:{m}")], expected: want, observed: got, oracle: "bash".into() });
         }
     }
+    // ---- expressions that differ only in white space but tokenise differently (`x++ +y` / `x+ ++y`,
+    //      `1 2` / `12`, `x< =1` / `x<=1`): evaluated one after the other in ONE shell, in both orders, so
+    //      that anything keyed on a normalised form of the text (a parse cache) is caught confusing them
+    {
+        let mut texts: Vec<String> = vec![];
+        for (alpha, len) in [(&["x", "y", "+", "-", " ", "1"][..], tier.pick(6, 7)), (&["x", "1", "<", "=", "!", "&", " ", "*", ">"][..], tier.pick(5, 6))] {
+            for t in crate::engine::enumerate::strings(alpha, len) {
+                if t.is_empty() || t.starts_with(' ') || t.ends_with(' ') || t.contains("  ") || !t.contains(' ') && false {
+                    continue;
+                }
+                texts.push(t);
+            }
+        }
+        texts.sort();
+        texts.dedup();
+        let one = |e: &str| format!("x=5; y=3; echo \"r=$(( {e} ))\"; echo \"v=$x|$y\"");
+        let survey: Vec<String> = texts.iter().map(|t| one(t)).collect();
+        let sv = bash::batch_eval("", &survey, &[], 400);
+        let norm = |out: &str| -> String {
+            let r = out.lines().find(|l| l.starts_with("r=")).unwrap_or("ERR");
+            let v = out.lines().find(|l| l.starts_with("v=")).unwrap_or("v=?");
+            format!("{r} {v}")
+        };
+        let mut groups: BTreeMap<String, BTreeMap<String, String>> = BTreeMap::new(); // key -> outcome -> shortest text
+        for (t, r) in texts.iter().zip(sv.iter()) {
+            let Some(r) = r else { continue };
+            let o = norm(&String::from_utf8_lossy(&r.stdout));
+            let key: String = t.chars().filter(|c| *c != ' ').collect();
+            let e = groups.entry(key).or_default().entry(o).or_insert_with(|| t.clone());
+            if t.len() < e.len() {
+                *e = t.clone();
+            }
+        }
+        let mut pairs: Vec<(String, String, String)> = vec![]; // (E1, E2, expected)
+        for (_, outs) in &groups {
+            if outs.len() < 2 {
+                continue;
+            }
+            for (o1, e1) in outs {
+                if o1.starts_with("ERR") {
+                    continue; // only a successful parse can be remembered
+                }
+                for (o2, e2) in outs {
+                    if e1 != e2 {
+                        pairs.push((e1.clone(), e2.clone(), format!("{o1}\n{o2}")));
+                    }
+                }
+            }
+        }
+        // (each half in a subshell: names such as x1 or xy that an expression creates must not reach the other half)
+        let pscripts: Vec<String> = pairs.iter().map(|(a, b, _)| format!("( {} )\necho =====\n( {} )", one(a), one(b))).collect();
+        let pb = common::run_plain_scripts(&pscripts, 20_000);
+        // every text of a pair also on its own, to tell a lexing difference from an order-dependent one
+        let mut singles: Vec<String> = pairs.iter().flat_map(|(a, b, _)| [a.clone(), b.clone()]).collect();
+        singles.sort();
+        singles.dedup();
+        let sb = common::run_plain_scripts(&singles.iter().map(|t| format!("( {} )", one(t))).collect::<Vec<_>>(), 20_000);
+        let single_of: BTreeMap<&String, String> = singles.iter().zip(sb.iter()).map(|(t, o)| (t, o.crash.clone().map(|c| format!("CRASH {c}")).unwrap_or_else(|| norm(&o.out)))).collect();
+        for (i, (a, b, want)) in pairs.iter().enumerate() {
+            rep.evaluations += 1;
+            rep.nontrivial.insert(format!("pair:{a}|{b}"));
+            let got = match &pb[i].crash {
+                Some(c) => format!("CRASH {c}"),
+                None => {
+                    let (h1, h2) = pb[i].out.split_once("=====\n").unwrap_or((&pb[i].out, ""));
+                    format!("{}\n{}", norm(h1), norm(h2))
+                }
+            };
+            if got != *want {
+                // alone, does each text give what it gives inside the pair?
+                let alone = format!("{}\n{}", single_of.get(a).cloned().unwrap_or_default(), single_of.get(b).cloned().unwrap_or_default());
+                let mut tags = vec!["confusable-pair".to_string(), if alone == got { "same-when-alone".into() } else { "order-dependent".into() }];
+                for t in [a, b] {
+                    if t.contains("++") || t.contains("--") {
+                        tags.push("text:inc-dec-run".into());
+                        break;
+                    }
+                }
+                if got.starts_with("CRASH") {
+                    tags.push("crash".into());
+                }
+                rep.fail(Failure { case: format!("$(( {a} )) then $(( {b} )) in one shell"), tags, expected: want.clone(), observed: got, oracle: "bash".into() });
+            }
+        }
+        rep.set("whitespace_confusable_texts", texts.len() as u64);
+        rep.set("whitespace_confusable_pairs", pairs.len() as u64);
+    }
     rep.rule = format!(
         "all expression trees of depth <= 1 over 20 binary, 4 unary, 4 increment, 11 assignment operators, ?: and {} operands, plus depth-2 trees over {} operands; each rendered from the tree with minimal parentheses (C table), fully parenthesised, and without blanks; contexts $(( )), (( )), let, a[E], ${{s:E}}, declare -i; a case is non-trivial/distinct by its expression text",
         ops_wide.len(),
